@@ -384,6 +384,10 @@ class CallMixin:
             return self.induction_hypothesis(args[0], args[1:], fr, lineno)
         if name == "use":
             return self.use_lemma(args[0], args[1:], fr, lineno)
+        if name == "parses_as_int":
+            v = coerce(args[0], Str)
+            ok = z3.Function("str.is_int_literal", z3.StringSort(), z3.BoolSort())  # same symbols as bi_int
+            return VBool(z3.Or(z3.StrToInt(v.t) >= 0, ok(v.t)))
         if name == "is_sorted":
             lst = args[0]
             if not (isinstance(lst, VList) and lst.elem is not None):
@@ -715,6 +719,16 @@ class CallMixin:
         short = c.target.split("::")[1]
         if c.assumed:
             self.assumed_used.add(c.target)
+        # process-level effect ledger (file-system writes ...): a callee's DECLARED effects count as performed, on its
+        # normal and on its exceptional exits alike; a caller that declares `effects=[...]` may only call callees that
+        # declare theirs (otherwise the ledger would be incomplete)
+        top = getattr(self, "top_contract", None)
+        if self.spec_depth == 0 and self.merge_depth == 0:
+            if c.opts.get("effects") is not None:
+                for e_ in c.opts["effects"]:
+                    self.run.effects.append((e_, lineno))
+            elif top is not None and top.opts.get("effects") is not None:
+                self.oblige("frame", z3.BoolVal(False), lineno, note=f"callee {short} declares no effects", label="frame.effects.callee")
         if "requires" in c.methods:
             pre = truthy(self.spec_eval(c, "requires", vals))
             self.oblige("pre", pre, lineno, label=f"pre@{short}@L{lineno}")
@@ -745,6 +759,10 @@ class CallMixin:
         elif c.returns is None:
             result = VNone()
         else:
+            if self.merge_depth > 0 and getattr(self, "lemma_using", 0) == 0 and self.spec_depth == 0:
+                # under a comprehension binder a fresh result symbol would be ONE value shared by all elements
+                raise Unsupported(f"call of {c.target} inside a comprehension/merged expression needs a functional "
+                                  f"contract (`value`), its contract only has ensures clauses")
             result = c.returns.fresh("ret")
             self.on_fresh(result)
         vals = dict(params)
